@@ -1,6 +1,11 @@
 """Fake asyncio transport + session factory for driving a real `RPCSession` without sockets
-(used by the C01/C02 session-layer checks).  Writes are recorded; `close`/`abort` deliver
-`connection_lost` through `call_soon` as real transports do."""
+(used by the C01/C02 session-layer checks and by tools/facts/c01.py).  Writes are recorded;
+`close`/`abort` deliver `connection_lost` through `call_soon` as real transports do.
+
+Back-pressure (C01 session scenarios): `env_pause()` / `env_resume()` play the event loop telling
+the protocol that the socket send buffer is full / has drained (`pause_writing` /
+`resume_writing`, the asyncio.Protocol callbacks).  While the protocol has paused reading, bytes
+from the peer stay in `inbox` and are delivered when reading resumes (`feed`)."""
 import asyncio
 import json
 
@@ -11,19 +16,35 @@ class FakeTransport(asyncio.Transport):
         self.out = []          # bytes written, in order
         self.closing = False
         self.aborted = False
+        self.lost = False
         self.proto = None
         self.reading = True
+        self.paused_writing = False
+        self.inbox = []        # bytes from the peer not yet delivered (reading paused)
+        self.delivered = 0     # number of feed() chunks handed to data_received so far
+        self.nwritten = 0      # number of write() calls so far
+        # everything that crossed the wire, in its true order: ('w', bytes) written by the session,
+        # ('r', bytes) handed to data_received, ('lost',) connection_lost delivered
+        self.log = []
 
     def get_extra_info(self, name, default=None):
         return ('1.2.3.4', 5) if name == 'peername' else default
 
     def write(self, data):
+        self.nwritten += 1
         self.out.append(bytes(data))
+        self.log.append(('w', bytes(data)))
+
+    def _deliver_lost(self):
+        if not self.lost:
+            self.lost = True
+            self.log.append(('lost',))
+            self.proto.connection_lost(None)
 
     def _lost(self):
         if not self.closing:
             self.closing = True
-            asyncio.get_event_loop().call_soon(self.proto.connection_lost, None)
+            asyncio.get_event_loop().call_soon(self._deliver_lost)
 
     def close(self):
         self._lost()
@@ -40,6 +61,40 @@ class FakeTransport(asyncio.Transport):
 
     def resume_reading(self):
         self.reading = True
+        if self.inbox:
+            asyncio.get_event_loop().call_soon(self._flush_inbox)
+
+    def _flush_inbox(self):
+        while self.inbox and self.reading and not self.lost:
+            self.delivered += 1
+            data = self.inbox.pop(0)
+            self.log.append(('r', data))
+            self.proto.data_received(data)
+
+    # ---- what the harness (playing the event loop / the peer) does
+    def feed(self, data):
+        """bytes arrive from the peer; they reach the protocol at once unless it paused reading"""
+        if self.lost:
+            return
+        self.inbox.append(bytes(data))
+        self._flush_inbox()
+
+    def env_pause(self):
+        """the socket send buffer is full"""
+        if not self.paused_writing and not self.closing:
+            self.paused_writing = True
+            self.proto.pause_writing()
+
+    def env_resume(self):
+        """the socket send buffer has drained"""
+        if self.paused_writing:
+            self.paused_writing = False
+            if not self.lost:
+                self.proto.resume_writing()
+
+    def drop(self):
+        """the link is lost / the peer closed"""
+        self._lost()
 
     # helpers for the scripted peer
     def take_messages(self):
